@@ -133,7 +133,7 @@ NOTE_FILES = (
 )
 CHECKS["C04"] = dict(
     technique=FILES,
-    text="For access modes r+/w+ x 4 encodings x 5 csv dialects x flush_on_insert x compact prefixes x 13 write/read histories (incl. two rewrites, "
+    text="For access modes r+/w+ x 4 encodings x 7 csv dialects (delimiter, QUOTE_ALL, quotechar, lineterminator, skipinitialspace, escapechar without doublequote) x flush_on_insert x compact prefixes x 13 write/read histories (incl. two rewrites, "
     "single buffered row before remove_all, files > 8 KiB with early-stopping reads) x 169 content pairs (strings with "
     "delimiters, quotes, CR, LF, non-ASCII) the database file is decoded by an independent csv reader after every call (after "
     "close() when flush_on_insert is off) and through a fresh read-only TinyFlux, and must equal the model's contents in order.",
